@@ -380,6 +380,13 @@ inline bool has_edge(const Adj& adj, uint32_t u, uint32_t v) {
 // thread only, so f must not need the thread pool.
 template <class F>
 inline int probe_in_child(F f) {
+  // Forking this (ASan, multi-GB) process costs far more than the case itself,
+  // and every probed call is repeated in-process right after the probe, where
+  // the driver's crash handler saves the running case.  The probes therefore
+  // only run on request (they give a crash its specific finding key).
+  static const bool enabled = getenv("C11_FORK_PROBES") != nullptr;
+  if (!enabled)
+    return 0;
   fflush(nullptr);
   pid_t pid = fork();
   if (pid < 0)
